@@ -195,8 +195,10 @@ class ClassProfiler(object):
             for a_features_dict in (features if type(features) == tuple else (features,)):
                 for a_prop_key in a_features_dict:
                     for a_shape_to_remove in target_shapes:
-                        if a_shape_to_remove in a_features_dict[a_prop_key]:
-                            del a_features_dict[a_prop_key][a_shape_to_remove]
+                        # references to a class are annotated with the name of its shape, not with the class key
+                        for a_reference in (a_shape_to_remove, self._strategy._get_shape_name_for_a_class(a_shape_to_remove)):
+                            if a_reference in a_features_dict[a_prop_key]:
+                                del a_features_dict[a_prop_key][a_reference]
         for a_shape_to_remove in target_shapes:
             if a_shape_to_remove in self._classes_shape_dict:
                 del self._classes_shape_dict[a_shape_to_remove]
